@@ -336,12 +336,15 @@ def run_rt(ctx, prop, n_quick, n_thorough, gen_opts=None, with_edits=True):
             except Exception:
                 fd["_reproduced"] = False
     tb = vlib.KERNEL_TB + [
-        "modelled, not verified: the formatting layer of montepy/input_parser/syntax_node.py as coq/Model/Tree.v "
-        "(ValueNode short circuit, container concatenation, SyntaxNode None-skip, ListNode padding repair) and the block "
-        "layout of MCNP_Problem.write_to_file; the rendering of a changed value is an input of the model (C05's model); "
-        "ShortcutNode/ParticleNode are opaque leaves; NOT modelled: the LALR parsers and object constructors "
-        "(hypothesis as_parsed, validated per case by the correspondence)",
-        "oracle: harness/spec.py, an independent reader of the MCNP input format (search support, not a proof)",
+        "modelled, not verified (coq/Model/Tree.v): ValueNode.format (short circuit; field width, separating blank and rest "
+        "of padding of a changed value; value_length fixed at the first changed format), the value setter's padding rule, "
+        "PaddingNode/CommentNode/ClassifierNode/ParametersNode/GeometryTree/IsotopesNode concatenation, SyntaxNode None-skip, "
+        "ListNode padding repair and blank after a shortcut, ParticleNode order normalisation, Cell.format_for_mcnp_input's "
+        "parameter loop (cleanup_last_line, dangling '&'), Importance.__setitem__/_unshare_tree, write_to_file's block layout; "
+        "inputs of the model: the spelling of a new number (C05), ShortcutNode texts (C08); NOT modelled: the LALR parsers and "
+        "object constructors (hypotheses as_parsed / Lossless_on, validated per input), update_with_new_values, line wrapping (C10)",
+        "oracle: harness/spec.py, an independent reader of the MCNP input format, and the reference model of the edits "
+        "harness/rt.py Ref (search support: they decide the property on the real code, the theorems are about the model)",
     ]
     return ctx, tb, dist
 
